@@ -67,6 +67,16 @@ CHECKS["C14"] = ("exploration",
    "Include graphs with globs, repeats, cycles and unread files, all 15 global options split over files, three-level settings and injected dangling references / duplicate ids; effective settings and accept/reject decision must equal the resolver's.",
    "Table/array-valued global options are defined in at most one file per tree (their merge semantics are not documented).",
    "DESIGN.md 4 C14")
+CHECKS["C11"] = ("exploration",
+   "model-based property testing (proptest): generated histories of configuration edits / restarts / renewals / forgotten accounts over 1..3 mock CAs compared with an account reference model; save/load round trip through the in-crate probe in separate processes; exhaustive truncation points per generated account shape; real daemon started on truncated files",
+   "Histories are interpreted step by step against the real daemon (one run per renewal/restart); the model predicts the registration / roll-over / contact-update requests per endpoint, silence on idle endpoints and the CA's record afterwards. Persistence is checked field by field across processes and every truncation point of generated account files must be refused.",
+   "One account; histories of up to 7 steps; keys are compared by type at the CA and by SPKI/private DER in the round trip.",
+   "DESIGN.md 4 C11, appendix D")
+CHECKS["C13"] = ("exploration",
+   "property-based testing (proptest): generated mode/owner/umask settings; stat observed by the in-crate probe after scripted write histories and by the hook recorder at file-post-create / file-post-edit / post-operation in real daemon runs; oracle = mode & ~umask and ids resolved independently",
+   "All 9-bit modes, users/groups by name and number, five umasks, creations and rewrites of the three file kinds.",
+   "Runs as root (chown observable); only users/groups present in the image.",
+   "DESIGN.md 4 C13")
 PENDING = {}
 
 props = [json.loads(l) for l in open("/verif/properties.jsonl")]
